@@ -70,8 +70,15 @@ class C08(Check):
         "the leak variable is in the node's balance iff leak_status and the leak row exists iff leak_status and not isolated; for ALL "
         "real pressures, areas, coefficients: rate = Cd*A*sqrt(2g*p) above the 1e-4 band, slope*p at or below zero, the generated "
         "cubic in between with equal values and slopes at both joints; mass-balance residual for any number of links; reported leak "
-        "demand model; remove_leak leaves no leak, no status, no control after ANY history. Real residuals and add/remove_leak "
-        "histories are compared with the Lean driver; the activation window and reported values are checked on real simulations.",
+        "demand model; remove_leak leaves no leak, no status, no control after ANY history. The generated rows are compared "
+        "SEMANTICALLY with the parametric rows (polynomial normal form over atoms, conditions with the bound moved into the body; "
+        "sound over the reals, sensitive to a sign / constant / bound / leaf: leak_rowSem_is_sensitive) and evaluate to the law at "
+        "every point (gen_leak_rows_eval, gen_mb_rows_eval). The ModelUpdater registrations of the zoo (DD and PDD, junctions and "
+        "tank) and the node attributes each Definition's build READS are generated: leak_status / _is_isolated rebuild the leak row "
+        "and the mode's mass balance, leak_area / leak_discharge_coeff the parameters and the spline coefficients "
+        "(updater_registers_leak, leak_definitions_rebuilt_on_what_they_read, leak_row_follows_status). Real residuals and "
+        "add/remove_leak histories are compared with the Lean driver; the activation window and reported values are checked on real "
+        "simulations (tank and junction leaks in DD and PDD, active leaks at negative pressure, several leaks with windows inside one step).",
         design_ref="DESIGN.md §5 C08",
         note="the activation window is a theorem on the scheduler model of C04 (Props/C08Window.lean: leak_window -- at every reported time the "
         "leak status is on iff start <= t and not start <= end <= t, for any number of leaks on distinct nodes, any steps, start/end on or off the grid, "
@@ -81,7 +88,7 @@ class C08(Check):
         "and fixed, junction+tank leaks, DD/PDD, removal between two runs). Real-number semantics of the rows (pow = "
         "Real.rpow, 2*9.81 and sqrt(2*9.81) are the doubles the code uses: within 1e-14 / 1e-15 relative, theorem twoG_is_2g); "
         "Newton solve and IEEE rounding only exercised. The LeakState machine is hand-written and tied by correspondence.",
-        technique="Lean 4 proof over translator-regenerated constraint rows and spline code + differential runs (residuals, add/remove_leak state machine) + oracle on real simulations",
+        technique="Lean 4 proof over translator-regenerated constraint rows (semantic normaliser with soundness proof), spline code and updater registrations + differential runs (residuals, add/remove_leak state machine) + oracle on real simulations",
     )
     rule = (
         "obligations: theorems of Props/C08.lean. correspondence cases: leak-row residual evaluations (node kind, Cd, A, pressure), "
@@ -90,7 +97,7 @@ class C08(Check):
         "or removal while active"
     )
     trusted_base = [
-        "translator harness/translate/rows_c07c08.py (amldump reflection + symbolic execution of leak_poly_coeffs_param.build, cubic_spline)",
+        "translator harness/translate/rows_c07c08.py (amldump reflection + symbolic execution of leak_poly_coeffs_param.build, cubic_spline; ModelUpdater.update_functions; attribute reads recorded through a recording subclass)",
         "Real.rpow / Real.sqrt as the meaning of aml `**0.5`",
         "the activation window theorem (Props/C08Window) is over the hand-written scheduler model Model/Sched.lean, tied to the code by C04's differential runs",
     ]
@@ -99,7 +106,14 @@ class C08(Check):
     # ------------------------------------------------------------------ translate
     def translate(self, ctx):
         wntr = vlib.import_wntr()
-        T.write_c07(wntr)  # cubic_spline lives in Gen/RowsC07.lean
+        try:
+            T.write_c07(wntr)  # cubic_spline lives in Gen/RowsC07.lean
+        except BrokenTie:
+            # the PDD part of the source no longer translates: C07's business; what C08 needs from that file is cubic_spline
+            spline = T.trace_cubic_spline()
+            cur = open(os.path.join(vlib.GEN, "RowsC07.lean")).read()
+            if spline not in cur:
+                raise BrokenTie("cubic_spline as executed differs from Gen/RowsC07.lean and the file cannot be regenerated")
         self.meta = T.write_c08(wntr)
 
     def _consts(self):
@@ -382,9 +396,17 @@ class C08(Check):
             act = wntr.network.controls.ControlAction(wn.get_link("PL"), "status", wntr.network.LinkStatus.Closed)
             cond = wntr.network.controls.SimTimeCondition(wn, "=", int(spec["isolate"]))
             wn.add_control("close_PL", wntr.network.controls.Control(cond, act))
+        if spec.get("high"):
+            # a junction ABOVE the hydraulic grade line (negative gauge pressure at every step): an active leak there discharges nothing
+            wn.add_junction("JH", base_demand=0.001, elevation=75.0)
+            wn.add_pipe("PH", "J2", "JH", length=120.0, diameter=0.25, roughness=100.0)
         for nm, (area, cd, st, en) in spec["leaks"].items():
             wn.get_node(nm).add_leak(wn, area, cd, st, en)
         windows = {nm: (st, en) for nm, (a, c, st, en) in spec["leaks"].items()}
+        ctx.count("sim_spec:simultaneous_leaks=%d" % len(windows))
+        for nm, (st, en) in windows.items():
+            if st is not None and en is not None and en > st and st % spec["hstep"] != 0 and st // spec["hstep"] == (en - 1) // spec["hstep"]:
+                ctx.count("sim_spec:window_inside_one_step:" + ("tank" if nm == "T" else "junction") + (":reportALL" if spec["report"] == "ALL" else ""))
         sim = wntr.sim.WNTRSimulator(wn)
         frames = []
         try:
@@ -440,6 +462,10 @@ class C08(Check):
                     ctx.case(("sim", spec["mode"], "tank" if nm == "T" else "junction", pos, nm in windows, spec["report"] == "ALL",
                               (spec["leaks"].get(nm, (0, 0, 0, 0))[2] or 0) % spec["hstep"] != 0), nontrivial=active)
                     ctx.count("simpoint:" + pos)
+                    if nm in windows:
+                        ctx.count("sim:%s:%s:%s" % (spec["mode"], "tank" if nm == "T" else "junction", pos))
+                    if active and p <= 0:
+                        ctx.count("sim_active_leak_at_nonpositive_pressure:" + spec["mode"])
                     if active:
                         if p >= 1e-4:
                             ex = cd * area * math.sqrt(G2 * p)
@@ -468,9 +494,20 @@ class C08(Check):
                                                 dict(spec, kind="sim", node=nm, t=t, observed=bal, expected=0.0)))
         return failures
 
+    DIRECTED_SIMS = [
+        # tank + junction leak in PDD, windows on the grid
+        {"mode": "PDD", "hstep": 3600, "report": 3600, "duration": 4 * 3600, "leaks": {"T": (0.01, 0.6, 3600, 10800), "J1": (0.002, 0.75, 0, 7200)}},
+        # active leak at NEGATIVE pressure, demand-driven and pressure-dependent (together with an ordinary leak)
+        {"mode": "DD", "hstep": 3600, "report": 3600, "duration": 3 * 3600, "high": True, "leaks": {"JH": (0.005, 0.75, 0, None), "J0": (0.001, 0.75, 3600, None)}},
+        {"mode": "PDD", "hstep": 1800, "report": "ALL", "duration": 3 * 1800, "high": True, "leaks": {"JH": (0.005, 1.0, 900, 4000), "T": (0.002, 0.6, 0, None)}},
+        # three simultaneous leaks whose windows lie strictly inside ONE hydraulic step (every solved time is reported)
+        {"mode": "DD", "hstep": 3600, "report": "ALL", "duration": 3 * 3600, "leaks": {"J0": (0.001, 0.75, 3700, 4500), "J1": (0.002, 0.6, 3800, 3900), "T": (0.005, 0.6, 3850, 4600)}},
+        {"mode": "PDD", "hstep": 3600, "report": 3600, "duration": 3 * 3600, "leaks": {"J0": (0.001, 0.75, 3700, 4500), "J2": (0.002, 0.6, 3800, 7100), "T": (0.005, 0.6, 100, 3500)}},
+    ]
+
     def _gen_sim_specs(self, ctx, n):
         rng = ctx.rng
-        specs = []
+        specs = [dict(d, leaks=dict(d["leaks"])) for d in self.DIRECTED_SIMS]
         for i in range(n):
             hstep = rng.choice([3600, 1800, 900])
             nst = rng.randint(3, 6)
@@ -520,7 +557,7 @@ class C08(Check):
         failures, broken = [], []
         for fn, c in vlib.corpus_items(self.pid):
             if c.get("kind") == "sim":
-                failures += self._sim_case(ctx, wntr, {k: (tuple(v) if isinstance(v, list) and k != "remove" else v) for k, v in c.items() if k in ("mode", "hstep", "report", "duration", "leaks", "pause", "remove", "isolate", "rerun")} | {"leaks": {n: tuple(v) for n, v in c["leaks"].items()}})
+                failures += self._sim_case(ctx, wntr, {k: (tuple(v) if isinstance(v, list) and k != "remove" else v) for k, v in c.items() if k in ("mode", "hstep", "report", "duration", "leaks", "pause", "remove", "isolate", "rerun", "high")} | {"leaks": {n: tuple(v) for n, v in c["leaks"].items()}})
         f, b = self._leak_rows(ctx, wntr, 12 if ctx.quick else 120)
         failures += f
         broken += b
@@ -530,11 +567,11 @@ class C08(Check):
         f, b = self._leak_ops(ctx, wntr, 40 if ctx.quick else 400, forced=self.FORCED_OPS)
         failures += f
         broken += b
-        for spec in self._gen_sim_specs(ctx, 14 if ctx.quick else 150):
+        for spec in self._gen_sim_specs(ctx, 12 if ctx.quick else 150):
             fs = self._sim_case(ctx, wntr, spec)
             failures += fs
             if len(ctx.samples) < 4:
-                ctx.sample({k: spec[k] for k in ("mode", "hstep", "report", "duration", "leaks", "isolate", "rerun") if k in spec} | {"pause": spec.get("pause"), "failures": len(fs)})
+                ctx.sample({k: spec[k] for k in ("mode", "hstep", "report", "duration", "leaks", "isolate", "rerun", "high") if k in spec} | {"pause": spec.get("pause"), "failures": len(fs)})
         failures.sort(key=lambda x: len(json.dumps(x.replay, default=str)))
         return failures, broken
 
@@ -564,7 +601,7 @@ class C08(Check):
         rp = r.get("replay", {})
         fs = []
         if rp.get("kind") == "sim":
-            spec = {k: rp[k] for k in ("mode", "hstep", "report", "duration", "pause", "remove") if k in rp and rp[k] is not None}
+            spec = {k: rp[k] for k in ("mode", "hstep", "report", "duration", "pause", "remove", "isolate", "rerun", "high") if k in rp and rp[k] is not None}
             spec["leaks"] = {n: tuple(v) for n, v in rp["leaks"].items()}
             fs = self._sim_case(ctx, wntr, spec)
         elif rp.get("kind") == "leakops":
